@@ -252,9 +252,9 @@ pub fn run(args: &Args, sink: &mut Sink, st: &mut Stream) {
     let mut rng = Rng::new(args.seed ^ 0x1d3);
     corpus(sink, st);
     if args.thorough() {
-        exhaustive(sink, st, 8, true);
+        exhaustive(sink, st, 7, true);
     } else {
         exhaustive(sink, st, 6, false);
     }
-    random(sink, st, &mut rng, args.vol(150, 4000));
+    random(sink, st, &mut rng, args.vol(150, 2000));
 }
